@@ -9,7 +9,17 @@ ASSUME ~DesignOk(1, {"distinct"})                     \* ... and the property do
    expression (which replaces the rows) sits in between. *)
 ExprMustFail(ch, p, n) == p <= n /\ \A i \in 1..Len(ch) : ~IsLimit(ch[i]) /\ ch[i] # "subq" /\ ch[i] # "map"
 ExprChains == {ch \in Chains(MaxH) : \A i \in 1..Len(ch) : ch[i] # "map"}       \* "map" (a + 0) would already fail below
+(* third family: long inputs.  MustFail does not depend on how far into the input the fault lies; the implementation has internal buffers
+   (the 10 000-message channels between a stream join and its two input goroutines, the ORDER BY / GROUP BY state), so the fault is placed
+   just beyond and far beyond them, below every operator and below / above the joins. *)
+DeepN == 20000
+DeepPs == {10001, 10002, 20000}
+Joins == {"joinL", "joinR", "outerL"}
+DeepChains == {<<o>> : o \in Ops} \cup {<<o1, o2>> : o1 \in Joins, o2 \in {"distinct", "groupby", "filter"}} \cup {<<o1, o2>> : o1 \in {"filter", "map"}, o2 \in Joins}
+                \cup {<<o1, o2>> : o1 \in Joins, o2 \in Joins}
+ASSUME \A ch \in DeepChains, p \in DeepPs : MustFail(ch, p, DeepN)        \* no LIMIT in these chains: every such fault must surface
 ASSUME ndJsonSerialize("c06_cases.ndjson", SetToSeq(
+         {[kind |-> "deep", chain |-> ch, p |-> p, n |-> DeepN, sql |-> Render(ch), mustfail |-> MustFail(ch, p, DeepN)] : ch \in DeepChains, p \in DeepPs} \cup
          {[kind |-> "source", chain |-> ch, p |-> p, n |-> N, sql |-> Render(ch), mustfail |-> MustFail(ch, p, N)] : ch \in Chains(MaxH), p \in 1..(N + 1)}
    \cup {[kind |-> "expr", chain |-> ch, p |-> p, n |-> N, sql |-> "SELECT a + 1 AS x FROM (" \o Render(ch) \o ") z", mustfail |-> ExprMustFail(ch, p, N)] :
            ch \in ExprChains, p \in 1..(N + 1)}))
